@@ -55,6 +55,7 @@ namespace pm
       STAR_PARTIAL,  // star whose last iteration keeps a partial match
       STAR_STRICT,   // star that fails when an iteration matches partially (first rule matched, a later one failed)
       REMATCH,       // kid0 = head, others are re-matched on exactly the bytes head matched
+      RAW_STRING,    // s = { Open, Marker, Close }; kids = content rules (implicit sequence, repeated until the closing bracket)
       // global failure
       RAISE = 64,  // a = node that is blamed, s = message override ("" = default for blamed node)
       TRY_FALSE,   // a = catch kind (0 parse_error family, 1 std::exception, 2 anything, 3 the foreign type)
@@ -214,6 +215,12 @@ namespace pm
       // the same before the node's own action is taken into account ("did the rule itself match")
       std::map< std::tuple< int, int, int, bool >, outcome > memo_pre;
       std::uint64_t caught = 0;  // exceptions converted by try_catch rules
+      // C11: witnesses of cycles without progress
+      bool detect_loops = false;
+      bool loop_witness = false;
+      std::string loop_kind;
+      int loop_node = -1;
+      std::set< std::tuple< int, int, int, bool > > open_calls;
       bool build_tree = false;
       std::vector< tnode > tstack;  // tstack[0] is the root
       bool tree_discarded = false;  // a successfully matched typed node was discarded later (non-triviality for C12)
@@ -323,6 +330,30 @@ namespace pm
             o.k = FUEL;
             return o;
          }
+         std::tuple< int, int, int, bool > okey;
+         if( detect_loops ) {
+            okey = std::make_tuple( ni, pos, c.end, c.act );
+            if( !open_calls.insert( okey ).second ) {
+               // the same expression is evaluated again at the same position while its evaluation is still open: left recursion
+               loop_witness = true;
+               loop_kind = "left-recursion";
+               loop_node = ni;
+               outcome o;
+               o.k = FUEL;
+               return o;
+            }
+         }
+         struct closer
+         {
+            machine& m;
+            const std::tuple< int, int, int, bool >& k;
+            ~closer()
+            {
+               if( m.detect_loops ) {
+                  m.open_calls.erase( k );
+               }
+            }
+         } closer_guard{ *this, okey };
          const std::size_t mark = events.size();
          const node& n0 = g.nodes[ std::size_t( ni ) ];
          const bool typed = build_tree && !n0.tname.empty();
@@ -528,6 +559,9 @@ namespace pm
                   if( r.k == OK ) {
                      if( q == p ) {
                         // iteration succeeded without progress: the formalism (and any implementation) loops forever
+                        loop_witness = true;
+                        loop_kind = "repetition-of-empty-match";
+                        loop_node = ni;
                         outcome o;
                         o.k = FUEL;
                         return o;
@@ -580,6 +614,9 @@ namespace pm
                   outcome q = seq_kids( n, 0, p, c );
                   if( q.k == OK ) {
                      if( q.end == p ) {
+                        loop_witness = true;
+                        loop_kind = "repetition-of-empty-match";
+                        loop_node = ni;
                         outcome o;
                         o.k = FUEL;
                         return o;
@@ -688,6 +725,72 @@ namespace pm
                   }
                }
                return ok( h.end );
+            }
+            case RAW_STRING: {
+               const char O = n.s[ 0 ], M = n.s[ 1 ], C = n.s[ 2 ];
+               if( pos >= end || in[ std::size_t( pos ) ] != O ) {
+                  return fail();
+               }
+               int i = pos + 1;
+               while( i < end && in[ std::size_t( i ) ] == M ) {
+                  ++i;
+               }
+               if( i >= end || in[ std::size_t( i ) ] != O ) {
+                  return fail();
+               }
+               const int level = i - pos - 1;
+               int p = i + 1;
+               {
+                  const int l = eol_len( p, end );
+                  if( l > 0 ) {
+                     p += l;
+                  }
+               }
+               auto close_at = [ & ]( int q ) {
+                  if( q + level + 2 > end || in[ std::size_t( q ) ] != C || in[ std::size_t( q + level + 1 ) ] != C ) {
+                     return false;
+                  }
+                  for( int k = 0; k < level; ++k ) {
+                     if( in[ std::size_t( q + 1 + k ) ] != M ) {
+                        return false;
+                     }
+                  }
+                  return true;
+               };
+               for( ;; ) {
+                  if( ++steps > fuel ) {
+                     outcome o;
+                     o.k = FUEL;
+                     return o;
+                  }
+                  if( close_at( p ) ) {
+                     return ok( p + level + 2 );
+                  }
+                  if( n.kids.empty() ) {
+                     if( p >= end ) {
+                        backtracked_after_consuming = true;
+                        return fail();
+                     }
+                     ++p;
+                     continue;
+                  }
+                  outcome r = seq_kids( n, 0, p, c );
+                  if( r.k != OK ) {
+                     if( r.k == FAIL ) {
+                        backtracked_after_consuming = true;
+                     }
+                     return r;
+                  }
+                  if( r.end == p ) {
+                     loop_witness = true;
+                     loop_kind = "repetition-of-empty-match";
+                     loop_node = ni;
+                     outcome o;
+                     o.k = FUEL;
+                     return o;
+                  }
+                  p = r.end;
+               }
             }
             case RAISE: {
                outcome o;
